@@ -18,7 +18,7 @@ RULE = ("random parent-closed topologies (2..12 nodes, depth <= 4; chains, fans,
         "no-misdelivery are judged. Non-trivial: >=1 frame crossed the air and quiescence was "
         "reached; distinct = distinct (topology shape, src/dst levels, hops, length class, "
         "type class, profile class, medium).")
-RULE += (" Later rounds added: re-used header objects (identity = origin, frame id, embedded message id), a relay whose application stops reading, multicast_level re-assigned on relays, systematic sweeps (every type over a 3-hop route, every length over a direct link, a deep tree with level overrides), peek() before read().")
+RULE += (" Later rounds added: re-used header objects (identity = origin, frame id, embedded message id), a relay whose application stops reading, multicast_level re-assigned on relays, systematic sweeps (every type over a 3-hop route, every length over a direct link, a deep tree with level overrides), peek() before read(), networks whose address prefix and suffix bytes were assigned after construction.")
 REQUIRED = {"delivered_exactly_once": 300, "bystanders_clean": 300, "write_true": 300,
             "onair_le_32": 300, "c07_listening": 3000}
 ASSUMPTIONS = ["ideal medium (no loss, no collisions) and homogeneous MCU profiles for the "
@@ -54,6 +54,7 @@ def type_class(t):
 def gen_cases(ctx):
     yield from gen_sweeps(ctx)
     rng = ctx.sub_rng("c05")
+    rng2 = ctx.sub_rng("c05b")  # later additions draw from their own stream
     ntop = 48 if ctx.tier == "quick" else 4000
     tperm = list(range(128))
     rng.shuffle(tperm)
@@ -124,7 +125,13 @@ def gen_cases(ctx):
                 msgs = head + through + [x for x in rest if x not in through][:10]
             else:
                 stall = None
-        yield {"nodes": nodes, "kinds": {str(k): v for k, v in kinds.items()},
+        addrbytes = None
+        if i % 4 == 1 and "mesh" not in kinds.values():
+            # the whole network uses its own address bytes, assigned after construction and applied
+            # by re-assigning node_address (the documented way)
+            b7 = rng2.sample(range(1, 255), 7)
+            addrbytes = {"prefix": b7[0], "suffix": b7[1:]}
+        yield {"nodes": nodes, "kinds": {str(k): v for k, v in kinds.items()}, "addrbytes": addrbytes,
                "profiles": {str(k): v for k, v in profiles.items()}, "frag_off": frag_off,
                "msgs": msgs, "seed": rng.getrandbits(30), "hostile": hostile, "stall": stall,
                # multicast_level re-assigned on some nodes (it has no say in unicast routing)
@@ -175,9 +182,16 @@ def _run(ctx, case, net):
     Hdr = m["structs"].RF24NetworkHeader
     nodes = case["nodes"]
     hostile = case["hostile"]
+    ab = case.get("addrbytes")
     for a in nodes:
+        def setup(o, a=a):
+            if ab:
+                o.address_prefix = bytearray([ab["prefix"]])
+                o.address_suffix = bytearray(ab["suffix"])
+                o.node_address = a
+                ctx.count("nodes_with_custom_address_bytes")
         nn = net.add(case["kinds"][str(a)], a if case["kinds"][str(a)] != "mesh" else ("id", 0),
-                     profile=case["profiles"][str(a)], id_start=case["id_start"][str(a)])
+                     profile=case["profiles"][str(a)], id_start=case["id_start"][str(a)], setup=setup)
         if case["kinds"][str(a)] == "mesh":
             net.bykey[a] = nn
             nn.key = a
